@@ -86,6 +86,8 @@ def process(ctx, content, env, trailing_newline=True):
         s = None
         if ty in ('After', 'Empty'):
             s = None
+            if ty == 'After' and hasattr(env, 'after'):
+                env.after(ctx, args[0])          # multi-file projects: the dependency is processed first (no output)
         elif ty == 'Include':
             s = env.include(ctx, args[0])
             if s is None:
